@@ -1,6 +1,10 @@
 package main
 
 import (
+	"bytes"
+	"encoding/json"
+	"os"
+	"os/exec"
 	"sort"
 
 	"golang.org/x/tools/go/ssa"
@@ -19,6 +23,7 @@ func init() {
 func runGenericContracts(c *Ctx) {
 	cs := loadContracts(c)
 	opt := vc.Options{Safety: false, InlineDepth: 2, InlineSize: 100}
+	c.Replayer = replaySpecCases
 	runContracts(c, cs, opt, defaultSolve())
 	if c.Prop == "C17" {
 		sweepLocks(c, cs, opt)
@@ -54,4 +59,65 @@ func sweepLocks(c *Ctx, cs *vc.Contracts, opt vc.Options) {
 	res := c.runUnits(roots, o, defaultSolve(), 16)
 	c.addResults(res)
 	c.Extra["lock_balance_sweep_functions"] = len(roots)
+}
+
+type specResult struct {
+	Failed   bool   `json:"failed"`
+	Input    string `json:"input"`
+	Observed string `json:"observed"`
+	Expected string `json:"expected"`
+	Ran      int    `json:"ran"`
+}
+
+// replaySpecCases: refuted (sat) obligations of functions without a dedicated harness are replayed with the
+// inputs listed for the function in harness/speccheck/cases.json, each with the result the language requires.
+func replaySpecCases(c *Ctx, items []*Item) map[string]*ReplayOutcome {
+	res := map[string]*ReplayOutcome{}
+	rootSet := map[string]bool{}
+	for _, it := range items {
+		if it.Root != "" && it.Status != "unknown" && it.Status != "timeout" {
+			rootSet[it.Root] = true
+		}
+	}
+	if len(rootSet) == 0 {
+		return res
+	}
+	var roots []string
+	for r := range rootSet {
+		roots = append(roots, r)
+	}
+	sort.Strings(roots)
+	bin, err := buildHarness("speccheck")
+	if err != nil {
+		return res
+	}
+	scratch, _ := os.MkdirTemp("", "slipvc-spec-")
+	defer os.RemoveAll(scratch)
+	in, _ := json.Marshal(map[string]any{"roots": roots, "cases": verifDir + "/harness/speccheck/cases.json"})
+	cmd := exec.Command(bin)
+	cmd.Dir = scratch
+	cmd.Stdin = bytes.NewReader(in)
+	out, err := cmd.Output()
+	if err != nil {
+		c.Notes = append(c.Notes, "speccheck harness: "+err.Error())
+		return res
+	}
+	var parsed struct {
+		Results map[string]*specResult `json:"results"`
+	}
+	if json.Unmarshal(out, &parsed) != nil {
+		return res
+	}
+	for _, it := range items {
+		r := parsed.Results[it.Root]
+		if r == nil || r.Ran == 0 || it.Status == "unknown" || it.Status == "timeout" {
+			continue
+		}
+		oc := &ReplayOutcome{Harness: "speccheck", Ran: true}
+		if r.Failed {
+			oc.Failed, oc.Input, oc.Observed, oc.Expected = true, r.Input, r.Observed, r.Expected
+		}
+		res[it.Name] = oc
+	}
+	return res
 }
